@@ -162,7 +162,11 @@ type schedStats struct {
 	maxStopped int
 }
 
-func runSchedCase(c schedCase, st *schedStats) *fail {
+func runSchedCase(c schedCase, st *schedStats) *fail { return runSchedCaseKeep(c, st, nil) }
+
+// runSchedCaseKeep: of the backend anomalies only those whose signature passes
+// keep are reported (nil: all).
+func runSchedCaseKeep(c schedCase, st *schedStats, keep func(sig string) bool) *fail {
 	fs := memfs.New(memfs.Options{NativeWalkGetAttr: c.Native, Monitor: true})
 	d, _ := fs.Tree.Mkdir(fs.Tree.Root, "D", 0o755, 0, 0)
 	f0, _ := fs.Tree.Create(d, "f", 0o644, 0, 0)
@@ -261,8 +265,28 @@ func runSchedCase(c schedCase, st *schedStats) *fail {
 		}
 		return nil
 	}
+	// after a release or a send, the next event (a call arriving at the backend or
+	// a reply) is awaited for up to 30 ms before the schedule moves on, so that a
+	// busy machine does not change which interleavings are explored; a request that
+	// the server's locks keep waiting produces no event and costs those 30 ms
+	settle := func() {
+		for i := 0; i < 150; i++ {
+			if len(stepCh) > 0 {
+				return
+			}
+			for j, s := range ss {
+				if sent[j] && !answered[j] && s.Pending() > 0 {
+					return
+				}
+			}
+			time.Sleep(200 * time.Microsecond)
+		}
+	}
 	idle := 0
 	for step := 0; step < 400 && nAnswered < len(c.Reqs); step++ {
+		if idle == 0 {
+			settle()
+		}
 		collect(2 * time.Millisecond)
 		if f := poll(); f != nil {
 			return f
@@ -319,6 +343,9 @@ func runSchedCase(c schedCase, st *schedStats) *fail {
 		return failf("request-never-answered:scheduled", "%d of %d requests were answered; schedule: %s (%s)", nAnswered, len(c.Reqs), strings.Join(trace, " > "), desc)
 	}
 	for _, an := range fs.Anomalies() {
+		if keep != nil && !keep(an.Sig) {
+			continue
+		}
 		switch an.Kind {
 		case "overlap":
 			return failf(an.Sig+":scheduled", "overlap: %s entered while %s was inside the backend; schedule: %s (%s)", an.B, an.A, strings.Join(trace, " > "), desc)
@@ -366,7 +393,7 @@ func genSchedCase(rt *rapid.T, themes []string) schedCase {
 // keeps all of them).
 func schedSubCheck(h *H, n int, themes []string, keep func(sig string) bool) {
 	run := func(c schedCase, st *schedStats) *fail {
-		f := runSchedCase(c, st)
+		f := runSchedCaseKeep(c, st, keep)
 		if f != nil && keep != nil && !strings.HasPrefix(f.Sig, "harness-") && !keep(f.Sig) {
 			h.Count("scheduled:verdicts-left-to-another-property", 1)
 			return nil
@@ -395,7 +422,7 @@ func keepC09(sig string) bool { return strings.HasPrefix(sig, "fenced-path-reach
 
 func schedReplay(keep func(string) bool) func(c schedCase) *fail {
 	return func(c schedCase) *fail {
-		f := runSchedCase(c, nil)
+		f := runSchedCaseKeep(c, nil, keep)
 		if f != nil && keep != nil && !strings.HasPrefix(f.Sig, "harness-") && !keep(f.Sig) {
 			return nil
 		}
